@@ -105,6 +105,9 @@ STD_CALLS = [
     (r'^signbit\|bool \((const )?(double|float)\)', '__CPROVER_signd({0})'),
     (r'^(sqrt|exp|log|log10|cbrt)\|double \((const )?double\)', None),      # -> NV_UF_<name>({0}) (filled in below)
     (r'^pow\|double \((const )?double, (const )?double\)', 'NV_UF_pow({0}, {1})'),
+    # std::min / std::max of two scalars, with their exact definitions ([alg.min.max]: min(a, b) = (b < a) ? b : a, max(a, b) = (a < b) ? b : a)
+    (r'^min\|const (unsigned long|long|int|unsigned int|double) &\(const \1 &, const \1 &\)', '((({1}) < ({0})) ? ({1}) : ({0}))'),
+    (r'^max\|const (unsigned long|long|int|unsigned int|double) &\(const \1 &, const \1 &\)', '((({0}) < ({1})) ? ({1}) : ({0}))'),
     (r'^memcpy\|void \*\(void \*', 'memcpy((void*)({0}), (const void*)({1}), {2})'),
     (r'^operator=\|[^|]*\|std::atomic<(bool|int|long|unsigned long|unsigned int|double)>\|#2', '(*{&0} = {1})'),
 ]
